@@ -1,6 +1,7 @@
 package main
 
 import (
+	"go/token"
 	"fmt"
 	"go/types"
 	"math/big"
@@ -342,6 +343,15 @@ func (x *Exec) builtin(st *State, fr *Frame, b *ssa.Builtin, cc *ssa.CallCommon,
 	case "append":
 		t := cc.Args[0].Type()
 		sort := x.w.SortOf(t)
+		// append onto a re-slice s[:k] of a slice the function reads from memory it did not allocate:
+		// the elements land in the spare capacity of that backing array, i.e. this is a write to the
+		// object holding s even though its slice header stays the same (invisible to the value view
+		// of slices; recorded here and charged to the frame at the return)
+		if args[1] != nil {
+			if ref, rs, ok := x.sharedAppendBase(st, fr, cc.Args[0], map[ssa.Value]bool{}); ok {
+				st.ghost["aliaswrite:"+rs+":"+ref] = TV{SBool, "true"}
+			}
+		}
 		if args[1] == nil {
 			_, e := x.seqOf(st, args[0], t)
 			return TV{sort, e}
@@ -562,4 +572,55 @@ func (x *Exec) ifaceStored(st *State, iv IfaceV, p PtrV) {
 		viewDecl(x)
 		st.assume(tEq(app("g_view", p.Ref), app("g_partviews", d.Get(i, st.heapSelect(p.RootSort, p.Ref)))))
 	}
+}
+
+// sharedAppendBase: does v (the first argument of an append) derive from a re-slice s[:k] of a slice
+// that was loaded through a pointer to an object allocated before this call? Returns that object.
+func (x *Exec) sharedAppendBase(st *State, fr *Frame, v ssa.Value, seen map[ssa.Value]bool) (ref, sort string, ok bool) {
+	if seen[v] {
+		return "", "", false
+	}
+	seen[v] = true
+	switch u := v.(type) {
+	case *ssa.Phi:
+		for _, e := range u.Edges {
+			if r, s, ok := x.sharedAppendBase(st, fr, e, seen); ok {
+				return r, s, true
+			}
+		}
+	case *ssa.Slice:
+		if u.High == nil {
+			return "", "", false // s[k:] keeps the end of the slice: appending reallocates or extends past its own end
+		}
+		ld, isLoad := u.X.(*ssa.UnOp)
+		if !isLoad || ld.Op != token.MUL {
+			return x.sharedAppendBase(st, fr, u.X, seen)
+		}
+		pv, isPtr := fr.vals[ld.X].(PtrV)
+		if !isPtr || pv.Nil {
+			return "", "", false
+		}
+		if pv.Cell != nil {
+			// a pointer to a slice variable (e.g. a *SignatureDatabase receiver)
+			if _, atEntry := fr.entry.cells[pv.Cell]; !atEntry {
+				return "", "", false
+			}
+			if x.aliasCells == nil {
+				x.aliasCells = map[string]*Cell{}
+			}
+			key := fmt.Sprintf("%p", pv.Cell)
+			x.aliasCells[key] = pv.Cell
+			return key, "cell", true
+		}
+		if pv.Ref == "" {
+			return "", "", false
+		}
+		return pv.Ref, pv.RootSort, true
+	case *ssa.Call:
+		// append(append(s[:k], ...), ...)
+		if b, isB := u.Call.Value.(*ssa.Builtin); isB && b.Name() == "append" && len(u.Call.Args) > 0 {
+			return x.sharedAppendBase(st, fr, u.Call.Args[0], seen)
+		}
+	}
+	return "", "", false
 }
